@@ -6,4 +6,5 @@ Extraction Language OCaml.
 Extraction "c19_model.ml"
   c19_run c19_resume c19_exec c19_guard_scope c19_guard_scope_ctor c19_ctor_active c19_scopes_run c19_nested_run c19_groups c19_script c19_sections_run c19_spec_exit c19_first_fail
   c19_fstep c19_ftrace c19_etrace c19_fut_ctor c19_start_rejected c19_history c19_ptrace c19_fut_started c19_fut_default c19_fut_prevalid c19_cfg_fixed c19_cfg_current
+  c19_xstep c19_xrun c19_xtrace c19_xinit c19_xinflight c19_owned
   c19_outer_outs c19_spec_accept c19_count_data c19_all_data_is c19_spec_data.
